@@ -1,7 +1,7 @@
 #!/bin/bash
 # usage: seed_intake.sh <pid>  -- verify every /tmp/mut_<pid>_out/<n> in parallel, copy verified ones to /verif/seeded/<pid>-<n>/
 pid="$1"
-for d in /tmp/mut_${pid}_out/*/; do
+pre="${2:-mut}"; for d in /tmp/${pre}_${pid}_out/*/; do
   n=$(basename "$d")
   [ -f "$d/patch.diff" ] || continue
   ( r=$(/verif/tools/seed_verify.sh "$pid" "${d%/}"); echo "$r"; echo "$r" > /tmp/seed_${pid}_${n}_verify.json ) &
